@@ -320,13 +320,17 @@ def judge(ctx, c, bodies, what, extra=None):
         soft = KEY_HYP_ACC            # hyperbolic region once the overflow defects are repaired: bisection accuracy
     elif not c["hyp"] and abs(c["dtP"]) > LONG_DTP and not c.get("w512"):
         soft = KEY_LONG               # very long elliptic steps: error grows like (dt/P)^2
-    if soft is not None and ctx.finding_open(soft) and not loose:
-        ctx.stat_max("soft_region_err_over_unit_tol:" + soft, worst)
+    if soft is not None and ctx.finding_open(soft):
+        if not loose:
+            ctx.stat_max("soft_region_err_over_unit_tol:" + soft, worst)
         if worst <= 1024.0 * K_ACC:
             if bad is not None:
                 ctx.excluded(soft)
                 ctx.cls("known_region")
                 return "excluded"
+            if loose:
+                ctx.cls("loose_tolerance")
+                return "loose"
             return "asserted"
     if not loose:
         ctx.stat_max("err_over_unit_tol_%s_%s" % ("hyp" if c["hyp"] else "ell", "dt<=P" if abs(c["dtP"]) <= 1 else "dt>P"),
@@ -591,6 +595,11 @@ def run_step(c, ctx):
     pl = c.get("prelude") or []
     if pl and o["hyp"] and o["e_hyp"] - 1.0 < 0.02:
         pl = []          # keep the prelude's own (short) steps far outside the known hyperbolic region
+    if o["hyp"] or o["e_ell"] > 0.5:
+        # hybrid integrators in the history only on orbits they advance without their adaptive encounter
+        # sub-integrators (star encounter criterion 0.4*v*dt < r_peri/1.1 holds for e<=0.5, |dt|<=0.05 P);
+        # otherwise they leave arbitrary states and arbitrarily expensive encounter integrations
+        pl = [x for x in pl if x[0] not in ("mercurius", "trace")]
     t0 = 0.0
     f_eff = f
     if pl:
@@ -599,12 +608,14 @@ def run_step(c, ctx):
         P0 = abs(dt / o["dtP"])
         arg = dict(arg, prelude=[list(x) for x in pl], P=P0, op="prepare")
         status, val = w.call(arg)
+        if status == "hang":
+            # the prelude is history, not the step under test; it may contain adaptive sub-integrations (IAS15 / BS
+            # inside a MERCURIUS / TRACE encounter, IAS15 itself) that are legitimately expensive: a CPU budget hit
+            # here is not a verdict (termination of the Kepler solver is asserted by `terminates`/`direct`)
+            ctx.skip("prelude exceeded the CPU budget: inconclusive, not a verdict")
+            return
         if status != "ok":
-            if status == "hang" and o["hyp"] and ctx.finding_open(KEY_HANG):
-                ctx.skip("prelude did not return on a hyperbolic orbit (known hang family)")
-                return
-            raise Violation("prelude %r %s: %s" % (pl, "does not terminate" if status == "hang" else "crashed", val),
-                            arg=arg)
+            raise Violation("prelude %r crashed: %s" % (pl, val), arg=arg)
         pre, t0 = val
         if not all(finite6(x) for x in pre):
             ctx.skip("prelude left a non-finite state")
@@ -637,6 +648,11 @@ def run_step(c, ctx):
         arg = dict(arg, op="step")
     nt = classify(o, e, f_eff, ctx)
     status, val = w.call(arg)
+    if status == "hang" and sch in ("mercurius", "trace"):
+        # these two may hand the step to IAS15 / BS (encounter with the star): cost is then unbounded by design,
+        # and such steps are outside the domain anyway ('away from encounters')
+        ctx.skip("%s step exceeded the CPU budget (adaptive encounter integration): inconclusive" % sch)
+        return
     if status != "ok":
         return not_returned(ctx, o, status, val, "one step of %s" % sch, arg=arg)
     out, t1, enc, t0 = val
